@@ -8,6 +8,7 @@ import (
 
 var registry = map[string]func() *check.Property{
 	"C02": C02,
+	"C03": C03,
 	"C09": C09,
 	"C12": C12,
 }
